@@ -95,6 +95,9 @@ def check_utc_guard(ctx, rep):
                 a = fmtargs.arguments_of(b, t["args"][1])
                 if a and a[1] and any("timezone_short_name" in repr(G.describe(b, x[2])) for x in a[1]):
                     zone_sites.append(bi)
+            elif nm in ("std::io::Write::write_all", "std::io::Write::write") or nm.endswith("encode::write_str"):
+                if len(t["args"]) > 1 and "timezone_short_name" in repr(G.describe(b, t["args"][1])):
+                    zone_sites.append(bi)
         if not zone_sites:
             rep.gap("DateTime writer %s: zone site" % what, b.where(), "no write of the zone name found")
             continue
@@ -230,12 +233,33 @@ def zone_table(ctx):
 
 
 def short_name_model(prog):
-    """how timezone_short_name cuts the zone id: ("after-first", '/') when it is id[id.find(<ch>).map_or(0, |v| v + 1)..]"""
+    """how timezone_short_name cuts the zone id: ("after-first" | "after-last", ch). Recognised spellings:
+    id[id.find(ch).map_or(0, |v| v + 1)..];  match id.find(ch) { Some(i) => &id[i + 1..], None => id };
+    id.split_once(ch).map_or(id, |(_, city)| city)  (and the rfind / rsplit_once variants, which cut after the last ch)"""
     from rules import panic as P
 
     b = prog.get("haystack::timezone::iana::timezone_short_name")
     if b is None:
         return None, None, "timezone_short_name not found"
+    fam = [b] + [prog.bodies[c] for c in prog.closures_of.get(b.id, [])]
+    # split_once form
+    for bi, t in b.calls():
+        nm = strip_generics(mir.callee_name(t) or "")
+        if nm.endswith("Option::map_or") and len(t["args"]) == 3:
+            recv = G.describe(b, t["args"][0])
+            dflt = G.describe(b, t["args"][1])
+            if recv.kind == "call" and recv.v in ("core::str::<impl str>::split_once", "core::str::<impl str>::rsplit_once") and len(recv.args) == 2 and recv.args[1].kind == "const":
+                if "tz_id" not in repr(recv.args[0]) or repr(dflt) != repr(recv.args[0]):
+                    return b, None, "split_once is not applied to the zone id with the id itself as the fall-back"
+                # the closure returns the part after the delimiter: field 1 of its tuple parameter
+                ok = False
+                for cb in fam[1:]:
+                    r = G.describe_place(cb, {"l": 0, "p": []})
+                    if re.fullmatch(r"_2\.1\**", repr(r)):
+                        ok = True
+                if not ok:
+                    return b, None, "the closure applied to split_once does not return the part after the delimiter"
+                return b, ("after-first" if recv.v.endswith("::split_once") else "after-last", chr(recv.args[1].v)), None
     for bi, t in b.calls():
         nm = strip_generics(mir.callee_name(t) or "")
         if nm.endswith("ops::Index for str>::index") or nm.endswith("SliceIndex<str>>::index"):
@@ -244,23 +268,30 @@ def short_name_model(prog):
             if not (rng.kind == "agg" and rng.v == "RangeFrom" and rng.args):
                 return b, None, "the id is not sliced with a `start..` range (%s)" % rng
             k = rng.args[0]
-            if not (k.kind == "call" and k.v == "std::option::Option::map_or" and len(k.args) == 3):
-                return b, None, "slice start is not find(..).map_or(0, ..) (%s)" % k
-            f, dflt, _clo = k.args
-            if not (f.kind == "call" and f.v in ("core::str::<impl str>::find", "core::str::<impl str>::rfind") and f.args[0].same(recv)):
-                return b, None, "slice start does not come from find() on the id itself (%s)" % f
-            if not (dflt.kind == "const" and dflt.v == 0):
-                return b, None, "default start is not 0"
-            if not (f.args[1].kind == "const"):
-                return b, None, "delimiter is not a constant char"
-            cids = [c for c in prog.closures_of.get(b.id, [])]
-            if not any(P._closure_is_plus_one(prog, c) for c in cids):
-                return b, None, "closure is not |v| v + 1"
-            # the sliced string must be the zone id: offset().tz_id()
             if "tz_id" not in repr(recv):
                 return b, None, "the sliced string is not the zone id (%s)" % recv
-            return b, ("after-first" if f.v.endswith("::find") else "after-last", chr(f.args[1].v)), None
-    return b, None, "no slice of the zone id found"
+            # (A) find(..).map_or(0, |v| v + 1)
+            if k.kind == "call" and k.v == "std::option::Option::map_or" and len(k.args) == 3:
+                f, dflt, _clo = k.args
+                if not (f.kind == "call" and f.v in ("core::str::<impl str>::find", "core::str::<impl str>::rfind") and f.args[0].same(recv)):
+                    return b, None, "slice start does not come from find() on the id itself (%s)" % f
+                if not (dflt.kind == "const" and dflt.v == 0):
+                    return b, None, "default start is not 0"
+                if not (f.args[1].kind == "const"):
+                    return b, None, "delimiter is not a constant char"
+                cids = [c for c in prog.closures_of.get(b.id, [])]
+                if not any(P._closure_is_plus_one(prog, c) for c in cids):
+                    return b, None, "closure is not |v| v + 1"
+                return b, ("after-first" if f.v.endswith("::find") else "after-last", chr(f.args[1].v)), None
+            # (B) match id.find(ch) { Some(i) => &id[i + 1..], None => id }
+            if k.kind == "binop" and k.v == "Add" and len(k.args) == 2 and k.args[1].kind == "const" and k.args[1].v == 1:
+                m = re.fullmatch(r"_(\d+) as Some\.0", repr(k.args[0]))
+                src = G.describe_place(b, {"l": int(m.group(1)), "p": []}) if m else None
+                if src is not None and src.kind == "call" and src.v in ("core::str::<impl str>::find", "core::str::<impl str>::rfind") and src.args[0].same(recv) and src.args[1].kind == "const":
+                    # the None arm yields the id itself: the function's result is built from `recv` on that edge too
+                    return b, ("after-first" if src.v.endswith("::find") else "after-last", chr(src.args[1].v)), None
+            return b, None, "slice start is neither find(..).map_or(0, |v| v + 1) nor `i + 1` for Some(i) = find(..) (%s)" % k
+    return b, None, "no slice / split of the zone id found"
 
 
 def prefix_table(prog):
@@ -285,8 +316,7 @@ def prefix_table(prog):
                             out = [v.v for v in vals]
     # the format template joining prefix and name
     sep = None
-    for cid in prog.closures_of.get(b.id, []):
-        cb = prog.bodies[cid]
+    for cb in [b] + [prog.bodies[cid] for cid in prog.closures_of.get(b.id, [])]:
         for bi, t in cb.calls():
             nm = strip_generics(mir.callee_name(t) or "")
             if nm == "std::fmt::format" or nm.endswith("fmt::Arguments::new"):
